@@ -446,6 +446,29 @@ class PostgreSQLQueryBuilder(QueryBuilder):
         newone._distinct_on = copy(self._distinct_on)
         return newone
 
+    def replace_table(self, current_table: Optional[Table], new_table: Optional[Table]) -> "PostgreSQLQueryBuilder":
+        query = super().replace_table(current_table, new_table)
+        query._returns = [term.replace_table(current_table, new_table) for term in query._returns]
+        query._distinct_on = [term.replace_table(current_table, new_table) for term in query._distinct_on]
+        query._on_conflict_fields = [
+            field.replace_table(current_table, new_table) if isinstance(field, Term) else field
+            for field in query._on_conflict_fields
+        ]
+        query._on_conflict_do_updates = [
+            (
+                field.replace_table(current_table, new_table) if isinstance(field, Term) else field,
+                value.replace_table(current_table, new_table) if isinstance(value, Term) else value,
+            )
+            for field, value in query._on_conflict_do_updates
+        ]
+        if query._on_conflict_wheres:
+            query._on_conflict_wheres = query._on_conflict_wheres.replace_table(current_table, new_table)
+        if query._on_conflict_do_update_wheres:
+            query._on_conflict_do_update_wheres = query._on_conflict_do_update_wheres.replace_table(
+                current_table, new_table
+            )
+        return query
+
     @builder
     def distinct_on(self, *fields: Union[str, Term]) -> "PostgreSQLQueryBuilder":
         for field in fields:
